@@ -12,6 +12,7 @@ import (
 	"time"
 
 	"github.com/google/inverting-proxy/zz_verif/vs"
+	"github.com/google/inverting-proxy/zz_verif/vtime"
 	"github.com/google/inverting-proxy/zz_verif/vx"
 )
 
@@ -1223,8 +1224,106 @@ func min(a, b int) int {
 	return b
 }
 
+// c20TwoSignals: a second SIGINT/SIGTERM during the grace period changes nothing: the agent still exits
+// when the period that the first signal started is over, and the request at the backend is answered.
+func c20TwoSignals(first, second syscall.Signal, grace, gap, latency time.Duration) vx.Scenario {
+	return vx.Scenario{Name: fmt.Sprintf("c20/two-signals/%v-then-%v/grace%v/gap%v/lat%v", first, second, grace, gap, latency), PB: 1, Delay: true, MaxSteps: 20000, MaxTime: time.Minute,
+		Setup: func(s *vs.Sched) func(*vs.Result) vx.Exec {
+			w := newWorld(s)
+			w.lists = []listReply{{ids: []string{"a"}}, {ids: []string{}}}
+			w.backend["a"] = &backendPlan{latency: latency}
+			var sigAt, sig2At time.Duration = -1, -1
+			w.startAgent(fmt.Sprintf("--graceful-shutdown-timeout=%v", grace))
+			s.Thread("signal", func() {
+				vs.Wait("signal: handler registered and the request at the backend", nil, func() bool { return len(w.hooks.SignalRegs) > 0 && w.callsFor("a") > 0 })
+				w.touch()
+				sigAt = s.Now()
+				w.signal(first)
+				vtime.Sleep(gap)
+				w.touch()
+				sig2At = s.Now()
+				w.signal(second)
+			})
+			return func(r *vs.Result) vx.Exec {
+				var x vx.Exec
+				baseViolations(r, &x)
+				x.Obs = fmt.Sprintf("sig1=%v sig2=%v exit=%v@%v code=%d upload=%v", sigAt, sig2At, r.Exited, r.ExitAt, r.ExitCode, w.uploadFor("a") != nil)
+				if sigAt < 0 {
+					return x
+				}
+				if !r.Exited {
+					x.Violations = append(x.Violations, fmt.Sprintf("NOEXIT: %v at %v and %v at %v but the process did not exit; blocked: %s", first, sigAt, second, sig2At, blockedList(r)))
+					return x
+				}
+				if w.killedBy != nil {
+					x.Violations = append(x.Violations, fmt.Sprintf("KILLED: the second signal (%v, %v after the first) met no handler and killed the agent at %v, %v into a grace period of %v", second, gap, r.ExitAt, r.ExitAt-sigAt, grace))
+					return x
+				}
+				if r.ExitAt != sigAt+grace {
+					x.Violations = append(x.Violations, fmt.Sprintf("EXITTIME: first signal at %v with grace %v (second signal %v later), exit at %v", sigAt, grace, gap, r.ExitAt))
+				}
+				if latency < grace {
+					if u := w.uploadFor("a"); u == nil || !u.done {
+						x.Violations = append(x.Violations, fmt.Sprintf("ABANDONED: the request at the backend (latency %v) was not answered although the grace period is %v", latency, grace))
+					}
+				}
+				return x
+			}
+		}}
+}
+
+// c20SignalWhileUnhealthy: the backend has not passed a health check yet; a SIGINT/SIGTERM ends the agent
+// at once (nothing is in flight, no grace period has anything to wait for).
+func c20SignalWhileUnhealthy(sig syscall.Signal, grace time.Duration, at time.Duration) vx.Scenario {
+	return vx.Scenario{Name: fmt.Sprintf("c20/signal-while-unhealthy/%v/grace%v/at%v", sig, grace, at), PB: 0, Single: true, MaxSteps: 20000, MaxTime: 30 * time.Second,
+		Setup: func(s *vs.Sched) func(*vs.Result) vx.Exec {
+			w := newWorld(s)
+			w.health = []bool{false, false, false, false, false, false, false, false, false, false, false, false, true}
+			w.lists = []listReply{{ids: []string{}}}
+			args := []string{"--health-check-interval-seconds=1"}
+			if grace > 0 {
+				args = append(args, fmt.Sprintf("--graceful-shutdown-timeout=%v", grace))
+			}
+			w.startAgent(args...)
+			var sigAt time.Duration = -1
+			s.Thread("signal", func() {
+				vtime.Sleep(at)
+				w.touch()
+				sigAt = s.Now()
+				w.signal(sig)
+			})
+			return func(r *vs.Result) vx.Exec {
+				var x vx.Exec
+				baseViolations(r, &x)
+				x.Obs = fmt.Sprintf("sig=%v exit=%v@%v code=%d health=%d lists=%d", sigAt, r.Exited, r.ExitAt, r.ExitCode, len(w.healthCalls), w.listStarted)
+				if sigAt < 0 {
+					return x
+				}
+				limit := sigAt + grace
+				if !r.Exited || r.ExitAt > limit {
+					x.Violations = append(x.Violations, fmt.Sprintf("SIGNAL-IGNORED: %v at %v while the backend had not yet passed a health check (grace %v): exited=%v at %v after %d health checks; blocked: %s", sig, sigAt, grace, r.Exited, r.ExitAt, len(w.healthCalls), blockedList(r)))
+				}
+				if w.listStarted > 0 {
+					x.Violations = append(x.Violations, fmt.Sprintf("UNGATED: the agent asked the proxy for work although no health check had passed (%d list calls)", w.listStarted))
+				}
+				return x
+			}
+		}}
+}
+
 func c20Scenarios(th bool) []vx.Scenario {
 	var out []vx.Scenario
+	for _, a := range []syscall.Signal{syscall.SIGINT, syscall.SIGTERM} {
+		for _, b := range []syscall.Signal{syscall.SIGINT, syscall.SIGTERM} {
+			out = append(out, c20TwoSignals(a, b, 4*time.Second, 300*time.Millisecond, 1500*time.Millisecond))
+			out = append(out, c20TwoSignals(a, b, 2*time.Second, time.Second, 0))
+		}
+		for _, g := range []time.Duration{0, 2 * time.Second} {
+			for _, at := range []time.Duration{500 * time.Millisecond, 1500 * time.Millisecond, 3200 * time.Millisecond} {
+				out = append(out, c20SignalWhileUnhealthy(a, g, at))
+			}
+		}
+	}
 	n := 6
 	if th {
 		n = 8
